@@ -8,7 +8,8 @@ git -C $WT checkout -q -- . 2>/dev/null; git -C $WT clean -fdq tests examples 2>
 git -C $WT apply --check $OUT/patch.diff || { echo "patch does not apply"; exit 2; }
 git -C $WT apply $OUT/patch.diff
 echo "== build + existing suite with the change"
-cargo test --workspace --no-fail-fast --offline > /tmp/rt-$PID-confirm.log 2>&1
+# the pinned suite occasionally hangs (tests/util block_on flake, DESIGN §10.6): time-box and retry once
+timeout 400 cargo test --workspace --no-fail-fast --offline > /tmp/rt-$PID-confirm.log 2>&1 || { pkill -f "$WT/target/debug/deps/functional" ; timeout 400 cargo test --workspace --no-fail-fast --offline > /tmp/rt-$PID-confirm.log 2>&1; }
 grep -E "^test result|FAILED|error(\[|:)" /tmp/rt-$PID-confirm.log | head -8
 echo "== demo WITH the change (expected to fail)"
 (cd $OUT/demo && timeout 900 bash ./run.sh > /tmp/rt-$PID-demo-with.log 2>&1; echo "rc=$?")
